@@ -73,6 +73,8 @@ pub struct HistCfg {
     pub bias_reopen: bool,
     #[serde(default)]
     pub descriptors: bool,
+    #[serde(default)]
+    pub walks: bool,
 }
 
 #[derive(Clone, Debug, Serialize, Deserialize)]
@@ -110,6 +112,8 @@ pub struct Session {
     pub opts: OptSet,
     pub wd: Arc<Watchdog>,
     pub scan_limit: usize,
+    /// when set, every observation also walks a fresh iterator randomly (C04)
+    pub walk_rng: Option<StdRng>,
 }
 
 pub fn random_opts(rng: &mut StdRng) -> OptSet {
@@ -272,6 +276,65 @@ impl Session {
                 None => -1,
             };
             let _ = vi;
+            if let Some(rng) = self.walk_rng.as_mut() {
+                let n = rng.gen_range(8..40);
+                let nk = u.n() as i64;
+                let moves: Vec<(u8, i64)> = (0..n)
+                    .map(|i| {
+                        let m = if i == 0 {
+                            rng.gen_range(0..3)
+                        } else {
+                            match rng.gen_range(0..12) {
+                                0 => 0,
+                                1 => 1,
+                                2 | 3 => 2,
+                                4..=7 => 3,
+                                _ => 4,
+                            }
+                        };
+                        (m as u8, rng.gen_range(1..=nk))
+                    })
+                    .collect();
+                let ro = ReadOptions {
+                    fill_cache: true,
+                    snapshot: view.cloned(),
+                };
+                let mut steps = vec![];
+                self.wd.call("freshwalk", || {
+                    if let Ok(mut it) = db.new_iterator(ro) {
+                        for (m, arg) in &moves {
+                            let code = match m {
+                                0 => it.seek_to_first().map(|_| ()),
+                                1 => it.seek_to_last().map(|_| ()),
+                                2 => it.seek(u.key(*arg)).map(|_| ()),
+                                3 => {
+                                    if it.is_valid() {
+                                        it.next();
+                                    }
+                                    Ok(())
+                                }
+                                _ => {
+                                    if it.is_valid() {
+                                        it.prev();
+                                    }
+                                    Ok(())
+                                }
+                            };
+                            let pos = if code.is_err() {
+                                [-1, -1]
+                            } else if it.is_valid() {
+                                let (k, v) = it.current().unwrap();
+                                [u.key_id(k), u.value_id(v)]
+                            } else {
+                                [0, 0]
+                            };
+                            steps.push(json!([m, arg, pos[0], pos[1]]));
+                        }
+                    }
+                });
+                self.sink
+                    .emit_json("FreshWalk", json!({"at": at, "steps": steps}));
+            }
             self.emit(
                 "Obs",
                 json!({
@@ -689,6 +752,11 @@ pub fn run_hist(
         opts: cfg.opts.clone(),
         wd: Arc::clone(wd),
         scan_limit: 10_000,
+        walk_rng: if cfg.walks {
+            Some(StdRng::seed_from_u64(cfg.seed ^ 0x77a1c))
+        } else {
+            None
+        },
     };
     let mut ops_done: Vec<Op> = vec![];
     let mut g = GenState {
